@@ -72,7 +72,7 @@ def make_case(rng, kind, t, start=None, exhaustive=None):
          "maxlevel": m, "options": rng.choice([None, None, [], ["rankdir=LR;", "node [shape=box];"]]),
          "indent": rng.choice([None, None, 0, 2, 7]), "iterations": rng.choice([1, 2]), "custom": custom,
          "graph": rng.choice([None, None, "graph"]), "gname": rng.choice([None, None, "G1"]),
-         "defaults": rng.random() < 0.3, "tofile": rng.random() < 0.1, "cls": rng.choice(["plain", "plain", "eq"]),
+         "defaults": rng.random() < 0.3, "tofile": rng.random() < 0.1, "cls": rng.choice(["plain", "plain", "eq", "light", "falsy"]),
          "partial": rng.choice([0, 0, 0, 1, 2, 3])}
     return c
 
